@@ -425,7 +425,7 @@ def check_callbacks(chk):
                 scope_opts = {lf.options_param}
                 cur = getattr(node, '_parent', None)
                 while cur is not None and cur is not lf.func:
-                    if isinstance(cur, ast.Lambda) and len(cur.args.args) == 2:
+                    if isinstance(cur, (ast.Lambda, ast.FunctionDef)) and len(cur.args.args) == 2:
                         scope_opts.add(cur.args.args[1].arg)
                     cur = getattr(cur, '_parent', None)
                 n += 1
